@@ -53,24 +53,24 @@ def main():
     confirmed = rc0 == 0 and rc1 != 0 and "171 passed" in meta["tests_with_change"]
     meta["confirmed"] = confirmed
     print(json.dumps({k: meta[k] for k in ("demo_without_change_exit", "tests_with_change", "demo_with_change_exit", "confirmed")}))
-    # run checks against /repo with the change
-    rc, out = sh("git status --porcelain", cwd="/repo")
-    if out.strip():
-        print("/repo is not clean; refusing", out)
-        return 2
-    rc, out = sh(f"git apply {diff}", cwd="/repo")
+    # run the checks against the changed tree: the worktree with the change applied is put first on the import path
+    # (PYTHONPATH overrides the editable install of /repo), so /repo itself is never touched and concurrently running
+    # checks are not disturbed
+    rc, out = sh(f"git apply {diff}", cwd=wt)
     if rc != 0:
-        print("diff does not apply to /repo:", out)
+        print("diff does not apply in worktree:", out)
         return 2
     results = {}
     try:
+        rc, out = sh("/venv/bin/python -c 'import netqasm; print(netqasm.__file__)'", cwd=ROOT, env=env)
+        assert out.strip().startswith(wt), out
         for p in [prop] + others:
-            rc, out = sh(f"./check {p} --tier {tier}", cwd=ROOT, timeout=7200)
+            rc, out = sh(f"./check {p} --tier {tier}", cwd=ROOT, env=env, timeout=7200)
             lines = [l for l in out.splitlines() if l.startswith("VIOLATION") or l.startswith("  fingerprint") or l.startswith("BROKEN")]
             results[p] = {"exit": rc, "lines": lines[:12]}
             print(p, "exit", rc, *lines[:6], sep="\n  ")
     finally:
-        sh("git checkout -- .", cwd="/repo")
+        sh("git checkout -- .", cwd=wt)
     meta["checks_with_change"] = results
     meta["detected_by"] = [p for p, r in results.items() if r["exit"] == 1]
     d = os.path.join(ROOT, "seeded", seed_id)
@@ -81,7 +81,7 @@ def main():
     if os.path.exists(notes):
         shutil.copy(notes, os.path.join(d, "notes.md"))
     meta["what_i_ran"] = (f"worktree {wt}: demo (clean) -> exit {rc0}; git apply; pytest -> {meta['tests_with_change']}; demo -> exit {rc1}; "
-                          f"then git -C /repo apply patch.diff; ./check {' '.join([prop] + others)} --tier {tier}; git -C /repo checkout -- .")
+                          f"then, with the change applied in the worktree, PYTHONPATH={wt} ./check {' '.join([prop] + others)} --tier {tier} (equivalent to git -C /repo apply patch.diff; ./check ...; git -C /repo checkout -- .)")
     with open(os.path.join(d, "meta.json"), "w") as fh:
         json.dump(meta, fh, indent=1)
     # restore evidence of the unchanged tree is the caller's job (re-run the checks)
